@@ -44,6 +44,31 @@ def build_objects(sc):
     return ia, p
 
 
+def inkey(s):
+    """assembly prefix of an input scaffold: its first contig is named <letters><digits>_... (hap1_scaffold_3, HAP2_SCAFFOLD_4_1), lower-cased; else """""
+    fr = [r for r in s["rows"] if r["k"] == "F"]
+    head = fr[0]["name"].split("_")[0] if fr and "_" in fr[0]["name"] else ""
+    a = head.rstrip("0123456789")
+    return head.lower() if a and a != head and a.isascii() and a.isalpha() else ""
+
+
+def reports(st, out, full=True):
+    """the derived reports of assembly_stats.py on the output assemblies, as records (Reports.tla)"""
+    import csv as csvmod
+    import io
+    import re
+    pas = [{"asm_lc": "" if k == "Primary" else k.lower(), "breaks": v["manual_breaks"], "joins": v["manual_joins"]} for k, v in st.per_assembly_stats.items()]
+    if not full:
+        return {"pas": pas}
+    txt = st.chromosomes_report_csv(out)
+    rows = list(csvmod.reader(io.StringIO(txt)))[1:] if txt else []
+    report = [{"asm": r[0], "name": r[1], "chr": r[2], "loc": r[3], "orig": r[4], "len": int(r[5]), "lmg": int(r[6])} for r in rows]
+    mm = st.check_consistent_autosome_count(out) or []
+    lg = st.check_for_large_haplotigs(out) or []
+    large = [re.match(r"Haplotig (\S+) ", m).group(1) for m in lg]
+    return {"report": report, "pas": pas, "sanity": {"mismatch": 1 if mm else 0, "large": large}}
+
+
 def run_scenario(sc):
     from tola.assembly.build_assembly import BuildAssembly
     from tola.assembly.gap import Gap
@@ -61,7 +86,8 @@ def run_scenario(sc):
                 txt = ba.assembly_stats.chromosome_name_csv(asm) if asm.curated else None
                 if txt:
                     csv.append({"asm": key or "", "lines": [ln.split(",") for ln in txt.splitlines()]})
-        return out, ba.assembly_stats, csv
+        rep = reports(ba.assembly_stats, out, full="prefix" in sc)
+        return out, ba.assembly_stats, csv, rep
     r = C.guarded(go, None, 20.0)
     if r[0] == "hang":
         t["status"] = "hang"
@@ -69,14 +95,135 @@ def run_scenario(sc):
         t["status"] = "exc:" + r[1]
         t["msg"] = r[2][:160]
     else:
-        out, st, csv = r[1]
+        out, st, csv, rep = r[1]
         if "prefix" in sc:
             t.update(prefix=sc["prefix"], nhaps=sc["nhaps"], csv=csv)
+        t.update(rep)
+        t["inkeys"] = [inkey(s) for s in sc["input"]]
         for key, asm in out.items():
             for s in asm.scaffolds:
                 t["out"].append({"asm": key or "", "asm_lc": (key or "").lower(), "name": s.name, "rank": s.rank or 0, "tag": s.tag or "", "hap": s.haplotype or "",
                                  "orig": s.original_name or "", "rows": [prow(x) for x in s.rows]})
         t["stats"] = {"cuts": st.cuts, "breaks": st.breaks, "joins": st.joins}
+    return t
+
+
+def agp_rows(path):
+    """independent reader of an AGP file the tool wrote: list of scaffolds [name, rows] in the Rows.tla record shape (object coordinates are C06's business)"""
+    scs = []
+    for line in open(path):
+        if not line.strip() or line.startswith("#"):
+            continue
+        f = line.rstrip("\n").split("\t")
+        if not scs or scs[-1]["name"] != f[0]:
+            scs.append({"name": f[0], "rows": []})
+        if f[4] in ("U", "N"):
+            scs[-1]["rows"].append({"k": "G", "name": f[6], "s": 1, "e": int(f[5]), "st": 0})
+        else:
+            scs[-1]["rows"].append({"k": "F", "name": f[5], "s": int(f[6]), "e": int(f[7]), "st": {"+": 1, "-": -1}.get(f[8], 0)})
+    return scs
+
+
+def file_key(fname, root="x", ver="1"):
+    """assembly a written file stands for, from the documented file names: <root>.<ver>.primary.curated / <root>.<hap>.<ver>.primary.curated ->
+    "" / hap; .additional_haplotigs(.curated) -> haplotig; any other assembly is written as <root>.<ver>.<key>s (haplotigs, contaminants,
+    falseduplicates, hap1s, all_haplotigs) -> key"""
+    parts = fname.split(".")
+    stem = [x for x in parts[1:-1] if x != "curated"]
+    if len(stem) == 3 and stem[1] == ver and stem[2] == "primary":
+        return stem[0].lower()
+    word = stem[-1] if stem else ""
+    if word == "primary":
+        return ""
+    if word == "additional_haplotigs":
+        return "haplotig"
+    # every other assembly is written as <root>.<ver>.<key, lower case>s
+    return word[:-1] if word.endswith("s") else word
+
+
+def run_scenario_cli(sc):
+    """the same scenario through the pretext-to-asm command line: input assembly and Pretext map written as AGP files, every output AGP read back;
+    the trace has the shape of run_scenario's (style 'cli...' marks it), plus the numbers of the info yaml and of the 'Curation made' log line"""
+    import re
+    import shutil
+    import tempfile
+    from pathlib import Path
+    from harness import cli_engine
+    t = {"tid": sc["tid"], "cls": "route-cli/" + sc["cls"], "tn": sc["tn"], "td": sc["td"], "naming": sc.get("naming", ""), "valid": sc["valid"],
+         "input": sc["input"], "map": sc["map"], "haps": sc.get("haps", ["" for _ in sc["input"]]), "style": sc.get("style", "plain"), "route": "cli", "status": "ok", "out": [],
+         "stats": {"cuts": 0, "breaks": 0, "joins": 0}, "msg": ""}
+    d = Path(tempfile.mkdtemp(prefix="clis-", dir=sc.get("root") or None))
+    try:
+        with open(d / "in.agp", "w") as fh:
+            for s in sc["input"]:
+                p = 0
+                for i, r in enumerate(s["rows"], 1):
+                    n = r["e"] - r["s"] + 1
+                    head = [s["name"], str(p + 1), str(p + n), str(i)]
+                    p += n
+                    if r["k"] == "G":
+                        fh.write("\t".join(head + ["U", str(n), r["name"], "yes", "proximity_ligation"]) + "\n")
+                    else:
+                        fh.write("\t".join(head + ["W", r["name"], str(r["s"]), str(r["e"]), {1: "+", -1: "-"}.get(r["st"], "?")]) + "\n")
+        with open(d / "p.agp", "w") as fh:
+            fh.write("##agp-version\t2.1\n# DESCRIPTION: Generated by PretextView Version 0.2.5\n")
+            fh.write(f"# HiC MAP RESOLUTION: {sc['tn'] / sc['td']:.6f} bp/texel\n")
+            for g, grp in enumerate(sc["map"], 1):
+                p = 0
+                part = 0
+                for pc in grp["pieces"]:
+                    if part:
+                        part += 1
+                        fh.write("\t".join([f"Scaffold_{g}", str(p + 1), str(p + 100), str(part), "U", "100", "scaffold", "yes", "proximity_ligation"]) + "\n")
+                        p += 100
+                    part += 1
+                    n = pc["b"] - pc["a"] + 1
+                    tags = (["Painted"] if grp["painted"] else []) + list(pc.get("tags", ()))
+                    fh.write("\t".join([f"Scaffold_{g}", str(p + 1), str(p + n), str(part), "W", pc["src"], str(pc["a"]), str(pc["b"]),
+                                         {1: "+", -1: "-"}.get(pc["st"], "?")] + tags) + "\t\n")
+                    p += n
+        out = d / "out"
+        out.mkdir()
+        args = ["-a", d / "in.agp", "-p", d / "p.agp", "-o", out / "x.1.agp", "--no-write-log"]
+        if sc.get("prefix"):
+            args += ["--autosome-prefix", sc["prefix"]]
+        r = C.guarded(lambda _: cli_engine.run_inproc(args), None, 30.0)
+        if r[0] == "hang":
+            t["status"] = "hang"
+        elif r[0] == "exc":
+            t["status"] = "exc:" + r[1]
+            t["msg"] = r[2][:160]
+        else:
+            rc, text, exc = r[1]
+            if rc != 0:
+                t["status"] = f"exc:exit{rc}" + (":" + exc if exc else "")
+                t["msg"] = text[-160:]
+            hap_written = 0
+            for f in sorted(out.glob("*.agp")):
+                key = file_key(f.name)
+                scs = agp_rows(f)
+                if key == "haplotig":
+                    hap_written += len(scs)
+                for s in scs:
+                    t["out"].append({"asm": key, "asm_lc": key, "file": f.name, "name": s["name"], "rank": 0, "tag": "", "hap": "", "orig": "", "rows": s["rows"]})
+            m = re.search(r"Curation made (\d+) cuts? in (?:a contig|contigs), (\d+) breaks? at (?:a gap|gaps) and (\d+) joins?", text)
+            t["log_stats"] = {"cuts": int(m.group(1)), "breaks": int(m.group(2)), "joins": int(m.group(3))} if m else {"cuts": -1, "breaks": -1, "joins": -1}
+            if m:
+                t["stats"] = dict(t["log_stats"])
+            yml = out / "x.1.info.yaml"
+            ytxt = yml.read_text() if yml.exists() else ""
+
+            def top(key):
+                mm = re.search(rf"^{key}:\s*(\d+)\s*$", ytxt, flags=re.M)
+                return int(mm.group(1)) if mm else -1
+            t["yaml"] = {"breaks": top("manual_breaks"), "joins": top("manual_joins"), "haplotig_removals": top("manual_haplotig_removals"), "present": 1 if ytxt else 0}
+            t["pas"] = [{"asm_lc": "" if k == "Primary" else k.lower(), "breaks": int(b), "joins": int(j)}
+                        for k, b, j in re.findall(r"^  (\S+):\n    manual_breaks: (\d+)\n    manual_joins: (\d+)$", ytxt, flags=re.M)]
+            t["inkeys"] = [inkey(s) for s in sc["input"]]
+            t["haplotig_scaffolds_written"] = hap_written
+            t["files"] = sorted(f.name for f in out.iterdir())
+    finally:
+        shutil.rmtree(d, ignore_errors=True)
     return t
 
 
